@@ -69,16 +69,39 @@ def attr_src(g, ws=0):
     return "#[serde%s%s%s]" % (op, comma.join(meta_src(m, ws) for m in g), cl)
 
 
+# predicates that are FALSE in the compilation the oracle speaks about (no such feature, not a test build):
+# rustc drops the gated attribute, serde never sees it, the plain names are written. (A predicate that is true
+# there is outside the closed-world premise of the check: the tool cannot evaluate predicates and HEAD
+# ignores cfg_attr altogether.)
+FALSE_PREDICATES = ['feature = "c06_gated_off"', "any()", "not(all())", 'all(test, feature = "c06_gated_off")', 'target_os = "c06-none"']
+
+
+def gated_src(gated, ws=0):
+    """#[cfg_attr(<false predicate>, serde(..), ..)]: gated = [[predicate, [group, ...]], ...]"""
+    comma = [", ", ",", " ,\n        "][ws]
+    out = []
+    for pred, groups in gated or []:
+        inner = comma.join("serde(%s)" % comma.join(meta_src(m, ws) for m in g) for g in groups)
+        out.append("#[cfg_attr(%s%s%s)]" % (pred, comma, inner))
+    return out
+
+
 def rust_source(c):
     ws = c.get("ws", 0)
     out = ["use serde::{Deserialize, Serialize};", "use std::marker::PhantomData;", "", "#[derive(Debug, Clone, Serialize, Deserialize)]"]
+    gc = gated_src(c.get("cgated"), ws)
+    out += gc[:1]                               # one gated attribute before, the others after the real ones
     for g in c.get("cattrs", []):
         out.append(attr_src(g, ws))
+    out += gc[1:]
     struct = c["kind"] == "struct"
     out.append("pub %s T0 {" % ("struct" if struct else "enum"))
     for k, it in enumerate(c["items"]):
+        gi = gated_src(it.get("gated"), ws)
+        out += ["    " + x for x in gi[:1]]
         for g in it.get("attrs", []):
             out.append("    " + attr_src(g, ws))
+        out += ["    " + x for x in gi[1:]]
         if struct:
             out.append("    pub %s: %s," % (it["ident"], it.get("ty") or ("String" if k % 2 == 0 else "i32")))
         else:
@@ -191,6 +214,29 @@ def typed_fields():
                          {"ident": "last", "attrs": [], "ty": FIELD_TYPES[(ti + 3) % len(FIELD_TYPES)]}]
                 cases.append({"kind": "struct", "cattrs": cattrs_for(rule, ri + ai, "struct"), "items": items, "dfc": "snake_case",
                               "ws": (ti + ai) % 3})
+    return cases
+
+
+def gated_cases():
+    """serde attributes behind cfg_attr with a false predicate (seed C06-11): gated rename_all / rename / skip on
+    containers, fields and variants, alone and next to real attributes; the names must be the plain ones."""
+    cases = []
+    k = 0
+    for kind in ("struct", "enum"):
+        idents = ["first_name", "legacy_id", "debug_info"] if kind == "struct" else ["InProgress", "HTTPError", "Idle"]
+        for grule in RULES:
+            for real_rule in (None, other_rule(grule)):
+                for item_gate in ([], [[["rename", "gatedName"]]], [[["skip"]]], [[["renamep", [["ser", "g-ser"]]]], [["other", "default"]]]):
+                    pred = FALSE_PREDICATES[k % len(FALSE_PREDICATES)]
+                    cattrs = cattrs_for(real_rule, k, kind)
+                    items = [shaped(kind, cattrs, idn, [[["other", "default"]]] if (j + k) % 3 == 0 else [], k + j) for j, idn in enumerate(idents)]
+                    if item_gate:
+                        items[k % 3]["gated"] = [[FALSE_PREDICATES[(k + 2) % len(FALSE_PREDICATES)], item_gate]]
+                    cgated = [[pred, [[["ra", grule]]]]]
+                    if k % 4 == 1:
+                        cgated.append([FALSE_PREDICATES[(k + 1) % 5], [[["flag", "deny_unknown_fields"]], [["ra", other_rule(grule)]]]])
+                    cases.append({"kind": kind, "cattrs": cattrs, "cgated": cgated, "items": items, "dfc": "snake_case", "ws": k % 3})
+                    k += 1
     return cases
 
 
@@ -318,7 +364,12 @@ def rand_container(rng, clean):
             it["shape"] = rng.choice(["unit", "unit", "tuple", "struct"])
             if it["shape"] == "tuple" and has_tag(cattrs):
                 it["shape"] = "struct"
-    return {"kind": kind, "cattrs": cattrs, "items": items, "dfc": "snake_case", "ws": rng.randrange(3)}
+    c = {"kind": kind, "cattrs": cattrs, "items": items, "dfc": "snake_case", "ws": rng.randrange(3)}
+    if rng.random() < 0.15:
+        c["cgated"] = [[rng.choice(FALSE_PREDICATES), [[["ra", rng.choice(RULES)]]]]]
+        it = rng.choice(items)
+        it["gated"] = [[rng.choice(FALSE_PREDICATES), [[rng.choice([["rename", "gatedName"], ["skip"]])]]]]
+    return c
 
 
 def random_cases(rng, n):
